@@ -36,6 +36,9 @@ var attCfgs = []attCfg{
 	// a certificate store that holds no certificate (signature checking on): nothing is signed
 	// by a key in it, so nothing may be accepted
 	{"store[]", world.SPConf{Store: []string{}}},
+	// no certificate store at all (a signed message makes the dependency panic there: that is a
+	// configuration outside C09's domain and not judged; what is judged is that nothing is accepted)
+	{"store=nil", world.SPConf{Store: []string{}, NilStore: true}},
 }
 
 // attCfgList is the list of configurations a search judges its states under: the three
@@ -46,7 +49,7 @@ func attCfgList(prop string, shallow bool) []int {
 		l = append(l, 3)
 	}
 	if shallow {
-		l = append(l, 4)
+		l = append(l, 4, 5)
 	}
 	return l
 }
@@ -127,6 +130,9 @@ func attJudge(input string, xml []byte, cfgi int, sp *saml2.SAMLServiceProvider)
 		sp = cfg.Conf.Build()
 	} else {
 		sp.IDPCertificateStore = world.Store(cfg.Conf.Store...)
+		if cfg.Conf.NilStore {
+			sp.IDPCertificateStore = nil
+		}
 		sp.SkipSignatureValidation = cfg.Conf.SkipSig
 	}
 	resp, r1 := validateResponse(sp, input)
@@ -139,6 +145,10 @@ func attJudge(input string, xml []byte, cfgi int, sp *saml2.SAMLServiceProvider)
 	}
 	detail = fmt.Sprintf("cfg=%s ValidateEncodedResponse: accepted=%v err=%q panic=%q | RetrieveAssertionInfo: accepted=%v err=%q", cfg.Name, r1.Accepted(), r1.Err.Text, r1.Panic, r2.Accepted(), r2.Err.Text)
 	add := func(k string) { keys = append(keys, k) }
+	if (r1.Panic != "" || r2.Panic != "") && cfg.Conf.NilStore {
+		// the dependency dereferences the missing store: outside the configurations C09 speaks of
+		return nil, detail, "rejected"
+	}
 	if r1.Panic != "" || r2.Panic != "" {
 		add("C09/attacker-state/panic")
 		if d := parseDoc(xml); d != nil && d.Root() != nil && len(allOf(d.Root(), idp.NSA, "EncryptedAssertion")) > 0 {
